@@ -607,6 +607,9 @@ ALPHABET = {
             ("dis", None), ("dis", 1), ("with", ("rb",), ()), ("with", ("rc",), ()), ("exit",), ("raise",),
             ("probe", ("base", U(yard=1))), ("def", "smoot")],
     "tiny": [("en", ("rb",), ()), ("dis", None), ("with", ("rc",), ()), ("exit",), ("def", "smoot")],
+    "lean": [("en", ("ra",), ()), ("en", ("rb",), ()), ("en", ("rc",), ()), ("en", ("rd",), ()),
+             ("dis", None), ("with", ("rc",), ()), ("exit",), ("raise",),
+             ("probe", ("base", U(yard=1))), ("def", "smoot")],
     "full": [("en", ("ra",), ()), ("en", ("ra",), kwt(n=5)), ("en", ("rb",), ()), ("en", ("rc",), ()),
              ("en", ("rd",), ()), ("en", ("rb", "ra"), ()), ("dis", None), ("dis", 1),
              ("with", ("ra",), ()), ("with", ("rb",), ()), ("with", ("rc",), kwt(k=3)), ("with", ("rd",), ()),
@@ -846,8 +849,8 @@ def detect_quirks(ck):
 
 # ------------------------------------------------------------------ the check
 PLAN = {
-    "quick": dict(single=[("full", 3), ("mid", 4), ("core", 5)], two=4, random=(150, 30)),
-    "thorough": dict(single=[("full", 4), ("mid", 5), ("core", 6), ("tiny", 7)], two=5, random=(1500, 30)),
+    "quick": dict(single=[("full", 3), ("lean", 4), ("core", 5)], two=4, random=(150, 30)),
+    "thorough": dict(single=[("full", 4), ("mid", 4), ("lean", 5), ("core", 6), ("tiny", 7)], two=5, random=(1500, 30)),
 }
 
 
@@ -977,6 +980,15 @@ def run(ck):
         "unit names without prefixes, symbols or plural forms (name resolution is C08's)",
         "single-threaded use of the registry",
     ]
+    ck.extra["theorem_status"] = {
+        "full (every quirk setting, no bound)": ["C12_active_is_stack", "C12_activation_pure_on_context"],
+        "guarded by defect switches off (proved), refuted for pint as it is": {
+            "C12_exit_restores / C12_block_restores": "guard q_rebuild_on_hit=false (F23); get_base_units additionally q_base_cache_ctx_blind=false (F7); C12_exit_restores_refuted, C12_exit_restores_base_refuted",
+            "C12_failed_activation_atomic": "guard q_partial_activation=false (F6) and q_rebuild_on_hit=false; C12_failed_activation_atomic_refuted",
+            "C12_shared_context_unmodified / C12_other_registry_unaffected": "guard q_rewrite_shared=false (F8); C12_shared_context_unmodified_refuted, C12_other_registry_refuted"},
+        "repaired model (all switches off)": ["C12_exit_restores_repaired", "C12_failed_activation_atomic_repaired"],
+        "non-vacuity": ["C12_active_is_stack_nonvacuous", "C12_exit_restores_nonvacuous", "C12_failed_activation_nonvacuous"],
+    }
     t0 = time.time()
     qk, notes, wfound = detect_quirks(ck)
     ck.extra["defect_switches_selected"] = qk
@@ -997,6 +1009,23 @@ def run(ck):
     add_findings({k: (d, o) for k, d, o in wfound})
     cases = []       # (term, defs, nodes, description)
     nontrivial = 0
+    # ---------------------------------------------------------- corpus first
+    from .common import VERIF
+    ncorpus = 0
+    for f in sorted((VERIF / "corpus" / "C12").glob("*.json")):
+        for item in json.load(open(f)).get("sequences", []):
+            two = bool(item.get("two"))
+            seq = [(r, op_unjson(o)) for r, o in item["ops"]] if two else [op_unjson(o) for o in item["ops"]]
+            term, defs, n = linear_case(seq, two)
+            cases.append((term, defs, n, {"corpus": f.name, "why": item.get("why"), "two_registries": two, "random": not two,
+                                          "ops": item["ops"], "prefix": item["ops"], "depth": len(seq)}))
+            if two:
+                add_findings(explore2_subtree((seq, len(seq)))[3])
+            else:
+                add_findings({k: (d, [op_json(o) for o in seq[:m]]) for k, d, m in run_sequence(seq)[1]})
+            ncorpus += 1
+            ck.evaluations += n
+    ck.count("corpus sequences", ncorpus)
     with mp.Pool(min(os.cpu_count() or 4, 16)) as pool:
         jobs = []
         for aname, depth in plan["single"]:
